@@ -58,6 +58,9 @@ STD_CELLS = [
     ("pool-2", "G2u", {"n_pool": 2}),
     ("capped-300", "G2u", {"max_iteration": 300}),
     ("prior-sampling", "G2u", {"prior_sampling": True}),
+    # uniform prior written without a bounds test: only the samplers' own checks keep the points inside the box
+    ("prior-without-bounds-check", "G2k", {}),
+    ("prior-without-bounds-check-logit-novolume", "G2k", {"reparameterisations": {"x0": "logit", "x1": "null"}, "constant_volume_mode": False}),
     # the process dies right after the 2nd training that an empty pool triggered while a replacement was being drawn; with checkpoint_on_training such a training asks
     # for a checkpoint in the middle of the iteration
     ("killed-after-mid-iteration-training", "G2u", {"checkpoint_on_training": True, "checkpoint_on_iteration": True, "checkpoint_interval": 1, "_stop_after_mid_iteration_training": 2}),
@@ -77,7 +80,8 @@ QUICK_STD = ["default-G2u", "default-G4u", "nonuniform-analytic", "nonuniform-re
              "latent-nball", "latent-gaussian", "latent-flow", "radius-worst-point", "radius-min-max", "truncate-log-q", "accumulate-weights", "drawsize-small",
              "reparam-logit", "reparam-inversion-split", "reparam-inversion-duplicate", "reparam-angle", "flow-maf", "flow-nsf", "nlive-10", "nlive-300",
              "memory", "reset-weights", "uninformed-50", "shrinkage-t", "pool-2", "capped-300", "prior-sampling", "prior-sampling-checkpointing", "asym-bounds-dict-reordered", "asym-reordered-reparam", "asym-reordered-logit-zscore", "logL-minus-2000", "logL-plus-900", "tolerance-loose",
-             "killed-after-mid-iteration-training", "killed-after-mid-iteration-training-time-schedule"]
+             "killed-after-mid-iteration-training", "killed-after-mid-iteration-training-time-schedule",
+             "prior-without-bounds-check", "prior-without-bounds-check-logit-novolume"]
 
 
 GEN_AXES = dict(
@@ -194,6 +198,8 @@ INS_CELLS = [
     ("ins-bimodal", "Bi2", {"nlive": 400, "min_samples": 100}, None),
     ("ins-edge-peaked-noreparam-clip", "G2e", {"reparameterisation": None, "clip": True, "max_iteration": 8}, None),
     ("ins-edge-peaked-logit-maf", "G2e", {"flow_config": {"ftype": "maf"}, "max_iteration": 8}, None),
+    ("ins-prior-without-bounds-check-noreparam", "G2k", {"reparameterisation": None, "max_iteration": 8}, None),
+    ("ins-prior-without-bounds-check-logit-resume", "G2k", {}, [2]),
     ("ins-gw5", "GW5", {"nlive": 400, "min_samples": 100, "max_iteration": 8}, None),
     # no i.i.d. set, and the kept part of the live set falls below the training floor (cap below the floor / fixed update index)
     ("ins-no-iid-max-samples-below-floor", "G2u", {"draw_iid_live": False, "min_samples": 150, "max_samples": 300}, None),
